@@ -230,7 +230,23 @@ fn fn_source(ps: &[Par]) -> String {
 
 fn bind_case(w: &mut CaseWriter, s: &State, ps: &[Par], unnamed: usize, named: &[&'static str], hist: &mut HashMap<String, usize>) {
 	let src = fn_source(ps);
-	let f = match s.evaluate_snippet("<c04bind>".to_owned(), src.clone()) {
+	let parsed = s.evaluate_snippet("<c04bind>".to_owned(), src.clone());
+	// the parameter list goes through the parser first: accepted iff no name is declared twice
+	// (asked once per parameter list, not once per call shape)
+	if unnamed == 0 && named.is_empty() {
+		let accepted = match &parsed {
+			Ok(Val::Func(_)) => json!({"accepted": true}),
+			Err(e) if err_class(e) == "syntax" => json!({"accepted": false}),
+			Err(e) => json!({"accepted": "error", "_class": err_class(e)}),
+			Ok(_) => json!({"accepted": "not a function"}),
+		};
+		*hist.entry(format!("accept:{}", accepted["accepted"])).or_default() += 1;
+		w.case(
+			json!({"op":"bind.accept", "params": ps.iter().map(|p| json!({"n":p.name,"d":p.dflt})).collect::<Vec<_>>(), "_src": src, "size": ps.len()}),
+			accepted,
+		);
+	}
+	let f = match parsed {
 		Ok(Val::Func(f)) => f,
 		_ => return,
 	};
@@ -1175,7 +1191,7 @@ fn run_workers(opts: &Opts) {
 	// E. recursion depth swept across the frame limit
 	let limits: &[usize] = if thorough { &[1, 2, 5, 20, 100, 200, 512, 2000] } else { &[2, 5, 20, 200, 512] };
 	for &limit in limits {
-		for t in [0usize, 1, 3, 4] {
+		for t in [0usize, 1, 2, 3, 4] {
 			let case = json!({"k":"sweep","limit":limit,"template":t,"from":0,"upto":limit + 4,"timeout_ms":180000});
 			let imp = pool.ask(&case);
 			*cx.fam.entry("sweep".to_owned()).or_default() += 1;
@@ -1217,15 +1233,19 @@ fn run_workers(opts: &Opts) {
 	// runaway recursion whose levels are connected by a field / element access instead of a pending
 	// call, and self-dependent fields met while the object's assertions run: must end in an error too
 	// (`strict`: no answer within the time limit counts as a failure, not as an undecided case)
-	for code in [
-		"local o(n) = { v: 1 + o(n + 1).v }; o(0).v",
-		"local a(n) = [1 + a(n + 1)[0]]; a(0)[0]",
-		"local o = { f(n): { v: 1 + o.f(n + 1).v } }; o.f(0).v",
-		"{ assert self.a == 1, a: self.a }",
-		"{ assert self.a == 1, a: self.b, b: self.a }",
-		"{ assert self.a.b == 1, a: { b: $.a.b } }",
+	// (runaway recursion has no pending marker to meet: the frame limit must stop it; a field that
+	// depends on itself must be reported as such, asserting or not — not merely run out of frames)
+	for (code, want) in [
+		("local o(n) = { v: 1 + o(n + 1).v }; o(0).v", "err:stack"),
+		("local a(n) = [1 + a(n + 1)[0]]; a(0)[0]", "err:stack"),
+		("local o = { f(n): { v: 1 + o.f(n + 1).v } }; o.f(0).v", "err:stack"),
+		("{ assert self.a == 1, a: self.a }", "err:infrec"),
+		("{ assert self.a == 1, a: self.a }.a", "err:infrec"),
+		("{ assert self.a == 1, a: self.b, b: self.a }", "err:infrec"),
+		("{ assert self.a.b == 1, a: { b: $.a.b } }", "err:infrec"),
+		("{ a: $.a } + { assert self.a < 1 }", "err:infrec"),
 	] {
-		cx.emit(&mut w, &mut pool, "unbounded", json!({"k":"src","code":code,"timeout_ms":3000}), json!({"strict":true}), Some(vec!["err:stack", "err:infrec"]), code.len());
+		cx.emit(&mut w, &mut pool, "unbounded", json!({"k":"src","code":code,"timeout_ms":3000}), json!({"strict":true}), Some(vec![want]), code.len());
 	}
 
 	// self-referential (infinitely deep, lazily built) values handed to recursive native code
@@ -1241,6 +1261,30 @@ fn run_workers(opts: &Opts) {
 			let size = code.len();
 			cx.emit(&mut w, &mut pool, "cyclic", json!({"k":"src","code":code,"full":true,"timeout_ms":5000}), json!({"strict":true,"call":call}), Some(vec!["ok", "err"]), size);
 		}
+	}
+
+	// two DIFFERENT infinitely deep values: no pointer-equality shortcut can end the comparison
+	for (bind, a, b) in [("local x = [x], y = [y]", "x", "y"), ("local x = {a: $}, y = {a: $}", "x", "y"), ("local x = {a: [x]}, y = {a: [y]}", "x", "y"), ("local f(n) = [f(n + 1)]", "f(0)", "f(1)")] {
+		for call in ["A == B", "[A] == [B]", "std.equals(A, B)", "A != B", "std.assertEqual(A, B)", "std.member([A], B)", "std.count([A], B)", "std.uniq([A, B])", "std.set([A, B])", "A < B", "std.sort([A, B])", "std.setMember(A, [B])", "std.setUnion([A], [B])", "std.remove([A], B)", "std.find(A, [B])", "std.mergePatch(A, B)", "std.minArray([A, B])"] {
+			let code = format!("{bind}; {}", call.replace('A', a).replace('B', b));
+			let size = code.len();
+			cx.emit(&mut w, &mut pool, "cyclic", json!({"k":"src","code":code,"full":true,"timeout_ms":5000}), json!({"strict":true,"call":call}), Some(vec!["ok", "err"]), size);
+		}
+	}
+	// assertions that read fields of the object being read are not self-dependence
+	for (code, want) in [
+		("{ assert self.a == 1, a: 1 }.a", "ok"),
+		("{ assert self.a == 1, a: 1 }", "ok"),
+		("{ assert self.a == self.b, a: self.b, b: 1 }", "ok"),
+		("{ assert self.a == self.b, a: self.b, b: 1 }.a", "ok"),
+		("{ assert self.a == 1 && self.a == 1, a: 1 }.a", "ok"),
+		("{ assert self.a.b == 1, a: { assert $.a.b == 1, b: 1 } }.a.b", "ok"),
+		("({ a: 1 } + { assert self.a == 1 }).a", "ok"),
+		("({ a: 1, b: self.a } + { assert self.b == super.b, a: 2 }).b", "ok"),
+		("{ assert self.a == 2, a: 1 }.a", "err:assert"),
+		("{ assert self.b == 1, a: 1 }.a", "err"),
+	] {
+		cx.emit(&mut w, &mut pool, "assert-read", json!({"k":"src","code":code,"full":true,"timeout_ms":5000}), json!({"strict":true}), Some(vec![want]), code.len());
 	}
 
 	// F. top-level arguments
